@@ -93,6 +93,39 @@ func runC04(w *vx.W) {
 	if thorough {
 		bases = append(bases, sAct3, sAct3BE, sSet, single("activity-1rec-hdr14", oneRec(hdr14(), false)))
 	}
+	// every Encode output (both byte orders, both header forms, several Files) is accepted by Decode and CheckIntegrity
+	if w.Shard == 0 {
+		n := 0
+		for _, gs := range genSlots() {
+			specs := genSpecs(gs, false)
+			for si, g := range specs {
+				if si%7 != 0 && si != len(specs)-1 {
+					continue
+				}
+				for c := 0; c < 4; c++ {
+					g.HdrCRC, g.Big = c&1 == 0, c&2 != 0
+					f, _, err := g.build()
+					if err != nil {
+						continue
+					}
+					out, eerr, pn := safeEncode(f, g.Big)
+					if eerr != nil || pn != "" {
+						continue // C05's subject
+					}
+					d := safeDecode(bytes.NewReader(out))
+					ci := safeCheckIntegrity(bytes.NewReader(out), false)
+					hi := safeCheckIntegrity(bytes.NewReader(out), true)
+					w.Eval(3)
+					n++
+					if d.Err != nil || ci.Err != nil || hi.Err != nil || d.Panic != "" || ci.Panic != "" {
+						w.Violation("encode-output-rejected", fmt.Sprintf("Encode output (%s file, %s, big-endian=%v, header CRC=%v) is rejected: Decode=%v CheckIntegrity=%v header-only=%v", fileTypeByByte(g.Slot.FT).Name, g.Desc, g.Big, g.HdrCRC, d.Err, ci.Err, hi.Err),
+							c04Replay{Kind: "valid", Stream: "encode output", Hex: vx.Hex(out)})
+					}
+				}
+			}
+		}
+		w.Fam("encode-outputs-checked", int64(n))
+	}
 	// every base file must be accepted and pass integrity
 	for _, s := range bases {
 		if w.Shard == 0 {
